@@ -83,7 +83,7 @@ def _work_inner(job):
     import corpus.seeds as S
 
     bounds = Bounds(**job["bounds"])
-    rng = random.Random(f"c03-{job['rngseed']}-{job['seeds'][0]}")
+    rng = random.Random(f"c03-{job['rngseed']}-{(job['seeds'] or ['gen'])[0]}")
     fns = seed_functions()
     out = {"results": [], "rejected": 0, "errors": [], "rej_samples": []}
     progs = []
@@ -99,14 +99,21 @@ def _work_inner(job):
             for mname, d, src in mutants_of(name, node, kind, instr_src, limit=job["mut_limit"], rng=rng):
                 progs.append((mname, src))
                 descr[mname] = d
+    if job.get("gen"):
+        from .gen import generate
+
+        gseed, gcount = job["gen"]
+        for gname, gsrc in generate(gseed, gcount):
+            progs.append((gname, gsrc))
+            descr[gname] = "generated"
     if progs:
-        mod = build_module(job["seeds"][0], progs)
+        mod = build_module(job["seeds"][0] if job["seeds"] else f"gen{job['gen'][0]}", progs)
         out["rejected"] = len(mod.REJ)
         out["rej_samples"] = list(mod.REJ.items())[:3]
         for mname, p in mod.PROCS.items():
             r = check_program(mname, p, bounds)
             r["src"] = str(p)
-            r["origin"] = "mutant:" + descr.get(mname, "")
+            r["origin"] = ("generated" if descr.get(mname) == "generated" else "mutant:" + descr.get(mname, ""))
             out["results"].append(r)
     return out
 
@@ -126,6 +133,10 @@ def run(tier):
         bounds = dict(size_max=4, idx_max=5, stmt_budget=2500)
         mut_limit = None
     jobs = [dict(seeds=names[b : b + 2], bounds=bounds, rngseed=vseed, mut_limit=mut_limit) for b in range(0, len(names), 2)]
+    # F-gen: grammar-generated sources (a fixed pool of generator seeds; quick takes a seed-rotated slice)
+    n_gen_jobs, per_job = (8, 12) if tier == "quick" else (40, 25)
+    base = (vseed % 5) * 100 if tier == "quick" else 0
+    jobs += [dict(seeds=[], bounds=bounds, rngseed=vseed, mut_limit=0, gen=(base + g, per_job)) for g in range(n_gen_jobs)]
     with mp.get_context("fork").Pool(ncpu(), maxtasksperchild=4) as pool:
         outs = pool.map(_work, jobs, chunksize=1)
     rep = Reporter("C03")
